@@ -48,6 +48,7 @@ SHAPES = OrderedDict(
         ("p3_two_noprose", ("Summary line", [("a", "str", P, ABSENT), ("width", "int", None, ABSENT), ("height", "int", None, ABSENT), ("depth", "int", None, ABSENT)], None)),
         ("p1_code2", ("Summary line", [("a", "np.ndarray", P, "```(np.ones(3) * 2).astype(int)```")], None)),
         ("p1_int_code", ("Summary line", [("a", "int", P, "```2 ** 5```")], None)),
+        ("p1_ret_none", ("Summary line", [("a", "int", P, D)], ("Optional[int]", "the result", "None"))),
         ("p1_ret_code_scalar", ("Summary line", [("a", "int", P, D)], ("float", "the result", "```a + 0.5```"))),
         ("p1_ret", ("Summary line", [("a", "int", P, ABSENT)], ("bool", "the result", ABSENT))),
         ("p1_ret_d", ("Summary line", [("a", "int", P, D)], ("Tuple[int, int]", "the result", "```(a, a)```"))),
